@@ -10,6 +10,56 @@ candidate callee.
 import ast
 
 
+def arg_name(a):
+    """the name an argument expression carries: a variable, the key of a dictionary access (env['sequence'], env.get('locktime')) or
+    the last attribute of a dotted access (self.network -> network)"""
+    if isinstance(a, ast.Name):
+        return a.id
+    if isinstance(a, ast.Subscript) and isinstance(a.slice, ast.Constant) and isinstance(a.slice.value, str):
+        return a.slice.value
+    if isinstance(a, ast.Call) and isinstance(a.func, ast.Attribute) and a.func.attr == 'get' and a.args and isinstance(a.args[0], ast.Constant) and isinstance(a.args[0].value, str):
+        return a.args[0].value
+    return None
+
+
+def name_matches(k, p):
+    return k == p or p.endswith('_' + k) or k.endswith('_' + p) or p.startswith(k + '_') or k.startswith(p + '_')
+
+
+def scan_keyed(repo, by_name, modname, qual, fn):
+    """like scan_function, for positional arguments that are dictionary accesses by a constant key (a context dict unpacked into a call):
+    the key names the value; it must land on the parameter of (nearly) that name when the callee has one"""
+    out = []
+    cls = qual.split('.')[0] if '.' in qual else None
+    for c in ast.walk(fn):
+        if not isinstance(c, ast.Call) or len(c.args) < 2 or any(isinstance(a, ast.Starred) for a in c.args):
+            continue
+        keyed = [(i, arg_name(a)) for i, a in enumerate(c.args) if not isinstance(a, ast.Name) and arg_name(a)]
+        if len(keyed) < 2:
+            continue
+        name = c.func.attr if isinstance(c.func, ast.Attribute) else (c.func.id if isinstance(c.func, ast.Name) else None)
+        cands = by_name.get(name, []) if name else []
+        if not cands or len(cands) > 4:
+            continue
+        verdicts = []
+        for mn, q, f in cands:
+            ps, var = _params(f)
+            bad = []
+            for i, k in keyed:
+                if i >= len(ps) or name_matches(k, ps[i]):
+                    continue
+                others = [j for j, p_ in enumerate(ps) if j != i and name_matches(k, p_)]
+                if others:
+                    j = others[0]
+                    filled = any(kw.arg == ps[j] for kw in c.keywords) or (j < len(c.args) and arg_name(c.args[j]) and name_matches(arg_name(c.args[j]), ps[j]))
+                    if not filled:
+                        bad.append((k, ps[i], i))
+            verdicts.append(bad)
+        if verdicts and all(verdicts):
+            out.append((c, cands[0][1], verdicts[0]))
+    return out
+
+
 def _params(fn):
     a = fn.args
     names = [x.arg for x in a.posonlyargs + a.args]
